@@ -24,7 +24,8 @@ const (
 		"that credited somebody while at least one authorizer (not the node owner) held a validated or withdraw-pending position. " +
 		"Distinct: different action/outcome sequence."
 	ruleC11 = "same harness. Non-trivial: the history contains a successful quitNode or blackNode followed later by a successful " +
-		"withdraw that paid ONT out of governance. Distinct: different action/outcome sequence."
+		"withdraw that paid ONT out of governance. Distinct: different action/outcome sequence. Every successful withdraw is also " +
+		"judged against an independent release model kept only from the arguments of the successful calls (per address and per address/peer pair)."
 	assume1 = "set-up: the ONT owner moves Σ genesis InitPos ONT to the governance address (initConfig only records the genesis stakes), as on every production network"
 	assume2 = "set-up: on network id 3 the whole ONG supply is minted to bookkeeper 0; it moves an ONG pool to the ONT contract address (pays ONG unbound to governance), to a bank account (governance income) and to the cast (candidate fee)"
 	assume4 = "witness sets contain only key-holding accounts, never a contract address (governance, ONT, zero address): no transaction can carry those"
@@ -58,6 +59,10 @@ func collector(prop string) *harn.Collector {
 		fl("withdraw:ok:paid>0", "withdraw", 0.20)
 		fl("withdraw:ok:fromQuitPeer", "withdraw:ok:paid>0", 0.05)
 		fl("withdraw:ok:fromBlackedPeer", "withdraw:ok:paid>0", 0.05)
+		fl("unAuthorizeForPeer:ok:exceedsTopUp:candidate", "unAuthorizeForPeer:ok", 0.04)
+		fl("unAuthorizeForPeer:ok:exceedsTopUp:consensus", "unAuthorizeForPeer:ok", 0.04)
+		fl("withdraw:ok:afterTopUpUnauth:candidate", "withdraw:ok:paid>0", 0.03)
+		fl("withdraw:ok:afterTopUpUnauth:consensus", "withdraw:ok:paid>0", 0.03)
 		fl("addInitPos:ok", "addInitPos", 0.30)
 		fl("reduceInitPos:ok", "reduceInitPos", 0.15)
 		fl("hist:nontrivial", "", 0.15)
@@ -75,7 +80,8 @@ func runHistories(t *testing.T, prop string, prof *profile, steps, quickN, thoro
 	harn.Check(t, quickN, thoroughN, func(rt *rapid.T) {
 		h := &hist{t: rt, w: w, n: w.chain.NewNative(), ev: ev, prop: prop, prof: prof, g: gen{rt},
 			deposited: map[common.Address]uint64{}, withdrawn: map[common.Address]uint64{},
-			goneQuit: map[string]bool{}, goneBlack: map[string]bool{}, counts: map[string]int{}}
+			goneQuit: map[string]bool{}, goneBlack: map[string]bool{}, counts: map[string]int{},
+			mdl: newModel(w), topUp: map[pairKey]int{}, topUpKind: map[pairKey]string{}}
 		h.setup()
 		h.n.Height = uint32(h.g.of("startHeight", baseHeight, baseHeight, baseHeight, 414100, 2_799_990))
 		h.n.Time += 100
@@ -101,6 +107,9 @@ func runHistories(t *testing.T, prop string, prof *profile, steps, quickN, thoro
 					h.exec(a)
 				}
 			}
+		}
+		if h.g.pct("prelude") < prof.prelude {
+			h.prelude()
 		}
 		h.warm = false
 		h.log = append(h.log, "|")
@@ -139,3 +148,41 @@ func TestC10_SplitMixedHistories(t *testing.T)   { runHistories(t, "C10", profMi
 func TestC10_SplitFocusedHistories(t *testing.T) { runHistories(t, "C10", profSplit, 40, 60, 1800) }
 func TestC11_StakeMixedHistories(t *testing.T)   { runHistories(t, "C11", profMixed, 40, 60, 1800) }
 func TestC11_StakeCustodyHistories(t *testing.T) { runHistories(t, "C11", profCustody, 40, 60, 1800) }
+
+// prelude builds, through ordinary judged calls, the situation random histories of this length rarely reach: an
+// eighth node ranked below the top K (a candidate that is not a consensus node) on which an authorizer holds a
+// position counted in an earlier epoch (CandidatePos), while every consensus node carries larger positions.
+func (h *hist) prelude() {
+	w, s := h.w, h.s
+	run := func(a *action) bool {
+		h.tick(1, 1)
+		return h.exec(a)
+	}
+	nd := w.nodes[nGenesis+h.g.n("preNode", nExtra)]
+	if _, in := s.pool[nd.pub]; in || s.isBlack(nd.pub) {
+		return
+	}
+	if !run(h.mkRegister(nd.pub, nd.defOwner, s.gp.MinInitStake, []common.Address{nd.defOwner}, true)) {
+		return
+	}
+	for _, pub := range h.s.poolKeys {
+		if p := h.s.pool[pub]; h.s.attr(pub).MaxAuthorize == 0 {
+			run(h.mkMaxAuth(p, uint32(uint64(h.s.gp.PosLimit)*p.initPos)))
+		}
+	}
+	minPos := h.s.gp2.MinAuthorizePos
+	for i := 0; i < nGenesis; i++ {
+		u := w.authorizers[h.g.n("preUser", len(w.authorizers))]
+		pos := minPos * uint32(3+h.g.n("prePos", 6))
+		run(h.mkAuthorize("authorizeForPeer", "authorizeForPeer", u, []string{w.nodes[i].pub}, []uint32{pos}, []common.Address{u}, true))
+	}
+	for i, k := 0, 1+h.g.n("preCandUsers", 2); i < k; i++ {
+		u := w.authorizers[h.g.n("preCandUser", len(w.authorizers))]
+		if u == nd.defOwner {
+			continue
+		}
+		pos := minPos * uint32(1+h.g.n("preCandPos", 2))
+		run(h.mkAuthorize("authorizeForPeer", "authorizeForPeer", u, []string{nd.pub}, []uint32{pos}, []common.Address{u}, true))
+	}
+	run(h.mk("commitDpos", "commitDpos", nil, []common.Address{w.admin}, true, "prelude"))
+}
